@@ -55,7 +55,8 @@ def main():
     pid = meta['property']
     wt = tempfile.mkdtemp(prefix='seedrun-%s-' % pid, dir='/tmp')
     os.rmdir(wt)
-    res = {'seed': os.path.relpath(seed, ROOT), 'property': pid, 'tier': tier}
+    res = {'seed': os.path.relpath(seed, ROOT), 'property': pid, 'tier': tier,
+           'repo_commit': subprocess.run(['git', '-C', '/repo', 'rev-parse', '--short', 'HEAD'], capture_output=True, text=True).stdout.strip()}
     try:
         rc, out = sh(['git', '-C', '/repo', 'worktree', 'add', '--detach', wt])
         assert rc == 0, out
@@ -63,6 +64,7 @@ def main():
         rc, out = sh(['git', '-C', wt, 'apply', os.path.join(seed, 'patch.diff')])
         res['patch_applies'] = rc == 0
         if rc != 0:
+            # the tree has moved on (later fix: commits) and the patch no longer applies: keep the earlier result
             res['error'] = out[-800:]
             print(json.dumps(res)); return 2
         if '--no-suite' not in sys.argv:
@@ -97,7 +99,16 @@ def main():
     # restore generated facts and evidence from /repo itself
     rc, out = sh([os.path.join(ROOT, 'check'), pid], cwd=ROOT, env=dict(os.environ, VERIF_REPO='/repo'), timeout=7200)
     res['restored_clean'] = rc == 0
-    json.dump(res, open(os.path.join(seed, 'result.json'), 'w'), indent=1)
+    old = os.path.join(seed, 'result.json')
+    if 'suite_passes_patched' not in res and os.path.exists(old):
+        try:
+            prev = json.load(open(old))
+            if 'suite_passes_patched' in prev:
+                res['suite_passes_patched'] = prev['suite_passes_patched']
+                res['suite_checked_at'] = prev.get('suite_checked_at', prev.get('repo_commit'))
+        except Exception:
+            pass
+    json.dump(res, open(old, 'w'), indent=1)
     print(json.dumps(res))
     return 0
 
